@@ -11,7 +11,7 @@ from sa.report import Ctx
 
 from .common import generic_sweeps
 
-from .sat_common import SatRoles, _enclosing_block, check_add_sites, check_assumption_assertion, check_analysis, check_assign, check_backtrack, check_bcp, check_main_loop, check_heap_flags, check_variable_universe
+from .sat_common import SatRoles, _enclosing_block, check_add_sites, check_assumption_assertion, check_analysis, check_assign, check_backtrack, check_bcp, check_input_copy, check_main_loop, check_heap_flags, check_variable_universe
 
 EXPLANATION = (
     "Decides structural necessary conditions of 'every returned assignment satisfies every clause / agrees with "
@@ -42,6 +42,7 @@ def run(ctx: Ctx):
     check_bcp(ctx, "C01-O10")
     check_analysis(ctx, "C01-O11")
     check_main_loop(ctx, "C01-O12")
+    check_input_copy(ctx, "C01-O13")
     generic_sweeps(ctx, skip_stutter_modules=("solvor/sat.py",))
 
 
